@@ -420,6 +420,55 @@ fn configured_boards() -> (u64, Vec<(String, String, String)>) {
     (n, bad)
 }
 
+/// Long traces: 16 fixed sequences of 30 000 operations each (the alphabet walked with 16 strides),
+/// compared with REF-BOARD after every operation - how long a board lives is not bounded by the BFS depth.
+fn long_traces(alpha: &[Op]) -> (u64, Vec<(String, String, String)>) {
+    let res = mc::par_ranges(16, 16, |rg| {
+        let mut bad = vec![];
+        let mut n = 0u64;
+        for t in rg {
+            let r = mc::catch(|| {
+                let mut b = Bus::new();
+                let mut r = RBoard::new();
+                let stride = 2 * t + 1;
+                let mut recent: Vec<Op> = vec![];
+                let mut cnt = 0u64;
+                for i in 0..30_000usize {
+                    let op = alpha[(i * stride + i / 19 + t) % alpha.len()];
+                    recent.push(op);
+                    if recent.len() > 12 {
+                        recent.remove(0);
+                    }
+                    apply(&mut b, &mut r, op);
+                    cnt += 1;
+                    if let Some((k, w)) = compare(&b, &r) {
+                        return (cnt, Some((format!("long-trace/{}", k), format!("operation #{} of long trace {} (the replay line holds the last 12 operations, from a new board): {}", i, t, w), line(&recent))));
+                    }
+                }
+                (cnt, None)
+            });
+            match r {
+                Ok((c, v)) => {
+                    n += c;
+                    if let Some(x) = v {
+                        bad.push(x);
+                    }
+                }
+                Err(p) => bad.push((format!("panic/{}", p.file()), format!("long trace {}: panic at {}: {}", t, p.site(), p.msg), "board ops=".to_string())),
+            }
+        }
+        (n, bad)
+    });
+    let mut n = 0;
+    let mut bad = vec![];
+    for (c, b) in res {
+        n += c;
+        bad.extend(b);
+    }
+    bad.truncate(6);
+    (n, bad)
+}
+
 /// The clamping rule over f32 bit patterns through each of the three analog setters.
 fn f32_sweep(full: bool) -> (u64, Vec<(String, String, String)>) {
     // quick: every sign x exponent (2^9) x every value of the 12 leading mantissa bits, trailing 11 bits all-0 and all-1
@@ -604,6 +653,15 @@ pub fn run() {
             e.1.push((l, w));
         }
     }
+    let (lt_ops, lt_bad) = long_traces(&alpha);
+    for (k, w, l) in lt_bad {
+        let e = bad.entry(k).or_default();
+        e.0 += 1;
+        if e.1.len() < 3 {
+            e.1.push((l, w));
+        }
+    }
+    ctx.set("long_trace_operations", lt_ops);
     let (cfg_ops, cfg_bad) = configured_boards();
     for (k, w, l) in cfg_bad {
         let e = bad.entry(k).or_default();
